@@ -61,7 +61,10 @@ def sprite_extraction(F, S):
                 out.append(bad("R-NOWRAP", inst, ex.loc(x), ex.qn, "window offset / size arithmetic cannot wrap", "%s needs %d bits in %s" % (fmt_term(ex.term(x)), W.needed(x), ex.n(x).get("iw"))))
             else:
                 out.append(ok("R-NOWRAP", inst, ex.loc(x), ex.qn, "window offset / size arithmetic cannot wrap", "needs %d bits, formed in %s" % (W.needed(x), ex.n(x).get("iw"))))
-    alloc = [nd for nd in ex.nodes if nd["k"] == "DeclStmt" and any(d.get("n") == "pixelContainer" for d in nd.get("decls", []))]
+    # the allocation is the byte vector constructed with a size (whatever it is called)
+    alloc = [nd for nd in ex.nodes if nd["k"] == "DeclStmt" and any(
+        (d.get("rec") or "").startswith("std::vector<unsigned char") and "init" in d and ex.term(d["init"])[0] == "ctor" and len(ex.term(d["init"])[2]) >= 1
+        for d in nd.get("decls", []))]
     inst = SL + "::ExtractImage#slice-before-allocation"
     if alloc and alloc[0]["id"] > gpc[0]["id"]:
         asite = final_site_facts(eng, ex, alloc[0]["id"]) or set()
@@ -80,14 +83,16 @@ def sprite_extraction(F, S):
     detail = "std::copy not found"
     if len(cp) == 1:
         defs = c05.alias_defs(g)
-        pal = [k for k in defs if k[1] == "palette"]
+        # the destination palette is the local the function returns
+        rv = [g.term(r["value"]) for r in returns(g)]
+        pal = [k for k in defs if k in rv]
         adefs = {k: v for k, v in defs.items() if k not in pal}
         a = [c05.resolve(g.term(x), adefs) for x in cp[0]["args"]]
         dst_n = None
         for nd in g.nodes:
             if nd["k"] == "DeclStmt":
                 for d in nd.get("decls", []):
-                    if d.get("n") == "palette" and "init" in d:
+                    if pal and ("var", d.get("n"), d.get("d")) == pal[0] and "init" in d:
                         dst_n = c05.resolve(g.term(d["init"]), defs)
         detail = "copy(%s, %s, %s); destination %s" % (fmt_term(a[0]), fmt_term(a[1]), fmt_term(a[2]), fmt_term(dst_n) if dst_n else "?")
         # end iterator = begin + palette.size(); destination constructed with (1 << bitCount); bitCount = isShadow ? 1 : 8
